@@ -197,6 +197,25 @@ func verifRunC09(c *verifsim.Ctx) {
 				}
 			}
 		}
+		// removal for the limit is only justified while more ready changes than
+		// the limit remain: count what was removed for age and what was not
+		oldRemoved, youngRemoved := 0, 0
+		for _, ci := range readyList {
+			if !after[ci.id] {
+				if ci.ready.Before(now.Add(-pruneWait)) {
+					oldRemoved++
+				} else {
+					youngRemoved++
+				}
+			}
+		}
+		allowed := len(readyList) - oldRemoved - maxReady
+		if allowed < 0 {
+			allowed = 0
+		}
+		if youngRemoved > allowed {
+			c.Violate("C09/removed-below-limit", "%d ready changes younger than the retention period were removed; with %d ready changes, %d of them removed for age, and a limit of %d only %d removals are justified by the limit", youngRemoved, len(readyList), oldRemoved, maxReady, allowed)
+		}
 		// oldest first among those removed because of the limit
 		var youngestRemoved, oldestKept time.Time
 		for _, ci := range readyList {
@@ -211,8 +230,9 @@ func verifRunC09(c *verifsim.Ctx) {
 		if !youngestRemoved.IsZero() && !oldestKept.IsZero() && oldestKept.Before(youngestRemoved) && !youngestRemoved.Before(now.Add(-pruneWait)) {
 			c.Violate("C09/not-oldest-first", "a ready change from %v ago was kept while one from %v ago was removed for the limit", now.Sub(oldestKept), now.Sub(youngestRemoved))
 		}
-		if got := st.TaskCount(); got > nTasksBefore {
-			c.Violate("C09/tasks-appeared", "task count grew from %d to %d", nTasksBefore, got)
+		// TaskCount also counts tasks that are no longer reachable through a change
+		if got := st.TaskCount(); got > nTasksBefore-removedTasks {
+			c.Violate("C09/tasks-left-behind", "%d tasks belonged to the removed changes but the number of stored tasks only went from %d to %d", removedTasks, nTasksBefore, got)
 		}
 		// notices and warnings: gone iff expired (7 days / warning expiry)
 		for _, n := range st.Notices(nil) {
